@@ -62,3 +62,30 @@ M("c08-pyx-D1", "C08", "c_common.pyx", "    if len(binstr) != 13 or not set(bins
 M("c08-pyx-perm", "C08", "c_common.pyx", "    cdef unsigned char B2 = mbin[9]\n    cdef unsigned char D2 = mbin[10]", "    cdef unsigned char B2 = mbin[10]\n    cdef unsigned char D2 = mbin[9]")
 M("c08-si", "C08", "decoder/allcall.py", '        IC = "SI" + str(remainder - 16)', '        IC = "SI" + str(remainder - 15)')
 M("c08-idcode-df", "C08", "py_common.py", "    if df(msg) not in [5, 21]:", "    if df(msg) not in [5, 21, 4]:")
+
+# ---- C02
+M("c02-or", "C02", "py_common.py", '        addr = "%06X" % (c0 ^ c1)', '        addr = "%06X" % (c0 | c1)')
+M("c02-df16", "C02", "py_common.py", "    elif DF in (0, 4, 5, 16, 20, 21):", "    elif DF in (0, 4, 5, 20, 21):")
+M("c02-slice", "C02", "py_common.py", "        addr = msg[2:8].upper()", "        addr = (msg[2:7] + msg[7].replace('f', 'F').replace('F', 'E')).upper()")
+M("c02-lowerx", "C02", "py_common.py", '        addr = "%06X" % (c0 ^ c1)', '        addr = "%06x" % (c0 ^ c1)')
+M("c02-D3-regress", "C02", "py_common.py", "        addr = msg[2:8].upper()", "        addr = msg[2:8]")
+M("c02-adsb-icao", "C02", "decoder/adsb.py", "def icao(msg: str) -> None | str:\n    return common.icao(msg)", "def icao(msg: str) -> None | str:\n    return common.icao(msg) if common.df(msg) != 16 else None")
+
+# ---- C10
+M("c10-slice", "C10", "decoder/bds/bds08.py", "    cs += chars[common.bin2int(csbin[18:24])]", "    cs += chars[common.bin2int(csbin[18:23])]")
+M("c10-table", "C10", "decoder/bds/bds08.py", 'chars = "#ABCDEFGHIJKLMNOPQRSTUVWXYZ#####_###############0123456789######"\n    msgbin', 'chars = "#ABCDEFGHIJKLMNOPQRSTUVWXYZ####_################0123456789######"\n    msgbin')
+M("c10-cat", "C10", "decoder/bds/bds08.py", "    return common.bin2int(mebin[5:8])", "    return common.bin2int(mebin[4:7])")
+M("c10-cs20", "C10", "decoder/bds/bds20.py", "    cs += chars[common.bin2int(d[50:56])]", "    cs += chars[common.bin2int(d[50:55] + d[49])]")
+M("c10-digit", "C10", "decoder/bds/bds20.py", 'chars = "#ABCDEFGHIJKLMNOPQRSTUVWXYZ#####_###############0123456789######"\n\n    d = ', 'chars = "#ABCDEFGHIJKLMNOPQRSTUVWXYZ#####_###############0123456798######"\n\n    d = ')
+
+# ---- C09
+M("c09-minus1", "C09", "decoder/bds/bds09.py", "            v_ew = v_ew - 1  # east-west velocity", "            v_ew = v_ew  # east-west velocity")
+M("c09-x4", "C09", "decoder/bds/bds09.py", "        if subtype == 4 and spd is not None:  # Supersonic\n            spd *= 4", "        if subtype == 4 and spd is not None:  # Supersonic\n            spd *= 2")
+M("c09-vrbits", "C09", "decoder/bds/bds09.py", '    vr_source = "GNSS" if mb[35] == "0" else "BARO"\n    vr_sign = -1 if mb[36] == "1" else 1', '    vr_source = "GNSS" if mb[36] == "0" else "BARO"\n    vr_sign = -1 if mb[35] == "1" else 1')
+M("c09-atan2", "C09", "decoder/bds/bds09.py", "            trk = math.atan2(v_we, v_sn)", "            trk = math.atan2(v_sn, v_we)")
+M("c09-movlb", "C09", "decoder/bds/bds06.py", "        mov_lb = [2, 9, 13, 39, 94, 109, 124]", "        mov_lb = [2, 9, 13, 40, 94, 109, 124]")
+M("c09-trk127", "C09", "decoder/bds/bds06.py", "        trk = common.bin2int(mb[13:20]) * 360 / 128", "        trk = common.bin2int(mb[13:20]) * 360 / 127")
+M("c09-D7-regress", "C09", "decoder/bds/bds09.py", "    if subtype in (1, 2) and (", "    if subtype in (1, 2, 3) and (")
+M("c09-diff", "C09", "decoder/bds/bds09.py", "        return sign * (value - 1) * 25  # in ft.", "        return sign * (value - 1) * 25 if value != 64 else sign * 1600  # in ft.")
+M("c09-tas", "C09", "decoder/bds/bds09.py", '        if mb[24] == "0":\n            spd_type = "IAS"', '        if mb[24] == "0" or subtype == 4:\n            spd_type = "IAS"')
+M("c09-sh", "C09", "decoder/adsb.py", "    return spd, trk_or_hdg\n", "    return spd, trk_or_hdg if tag != 'TAS' else None\n")
